@@ -14,14 +14,13 @@ RULE = ("cases = generated design specs of classes K1-K11 (flat, weighted, withi
 ASSUMPTIONS = ["reference model R (vlib/ref.py) is the documented semantics inside its decidable region",
                "pycryptosat (as driven by sweetpea) is a correct SAT solver"]
 MINIMUMS = {"quick": {"compared": 120, "compared_nonempty": 50, "compared_empty": 15, "sequences_compared": 1500},
-            "thorough": {"compared": 1500, "compared_nonempty": 600, "compared_empty": 200,
-                         "sequences_compared": 20000}}
+            "thorough": {"compared": 420, "compared_nonempty": 175, "compared_empty": 52, "sequences_compared": 5250}}
 CASE_TIMEOUT = 120
 CAP = 600
 
 
 def cases(tier, seed):
-    return D.spec_cases(tier, seed, None, 330, 4400, "c02")
+    return D.spec_cases(tier, seed, None, 330, 2600, "c02")
 
 
 def compare(p, want, got, strat, exhausted=True):
